@@ -5,6 +5,7 @@ package split
 import (
 	"context"
 	"crypto/tls"
+	"encoding/base64"
 	"errors"
 	"fmt"
 	"net"
@@ -15,6 +16,8 @@ import (
 	"github.com/hashicorp/nodeenrollment"
 	nodeenet "github.com/hashicorp/nodeenrollment/net"
 	"github.com/hashicorp/nodeenrollment/protocol"
+	nodetls "github.com/hashicorp/nodeenrollment/tls"
+	"google.golang.org/protobuf/proto"
 
 	"verifharness/hs"
 	"verifharness/world"
@@ -72,7 +75,9 @@ func Run(bh Behaviour, seed int64) ([]Line, error) {
 	for _, n := range strList(bh.Ops[0]["native"]) {
 		native[n] = true
 	}
-	srv, err := hs.NewServer(hs.ServerConfig{Seed: world.Uint64Seed(seed, bh.Id), NoAcceptLoop: true})
+	// closeErr "custom": the base listener reports its closure with an error of its own (a session-style listener)
+	customClose := fmt.Sprint(bh.Ops[0]["closeErr"]) == "custom"
+	srv, err := hs.NewServer(hs.ServerConfig{Seed: world.Uint64Seed(seed, bh.Id), NoAcceptLoop: true, CustomCloseErr: customClose})
 	if err != nil {
 		return nil, err
 	}
@@ -159,6 +164,23 @@ func Run(bh Behaviour, seed int64) ([]Line, error) {
 				_ = raw.SetDeadline(time.Now().Add(3 * time.Second))
 				cerr = tc.HandshakeContext(ctx)
 				conn = tc
+			case "rogue":
+				// never enrolled: an EMPTY authentication entry first, then the chunks of a self-signed fetch request
+				info, ierr := srv.W.BuildInfo(world.FetchSpec{K: "kx", E: "e1", Nonce: "n1"})
+				if ierr != nil {
+					cancel()
+					return nil, ierr
+				}
+				freq, _ := srv.W.SignInfo(info, "kx")
+				fb, _ := proto.Marshal(freq)
+				fp, _ := nodetls.BreakIntoNextProtos(nodeenrollment.FetchNodeCredsNextProtoV1Prefix, base64.RawStdEncoding.EncodeToString(fb))
+				protos := append([]string{nodeenrollment.AuthenticateNodeNextProtoV1Prefix + "00-"}, fp...)
+				protos = append(protos, extras...)
+				cert, _ := srv.ClientCert(hs.Client{Ck: "kx", Chain: "self", Priv: true})
+				es, _ := srv.RawDial(ctx, protos, cert, tls.VersionTLS12)
+				if es != "" {
+					cerr = errors.New(es)
+				}
 			case "fetch":
 				name := fmt.Sprintf("fx%d", i)
 				if _, err := srv.NewNode(name); err != nil {
